@@ -4,7 +4,7 @@ set -e
 S=/var/tmp/drv2s
 mkdir -p $S
 rsync -a --delete --exclude .git /repo/ $S/
-python3 /verif/agent_notes/drv2_gen/gen.py $S/zz_bitmapdrv2_verif.go
+NOVIEW=$NOVIEW python3 /verif/agent_notes/drv2_gen/gen.py $S/zz_bitmapdrv2_verif.go
 python3 - $S/zz_bitmapapi_verif.go "$DROP" <<'PY'
 import sys,re
 p=sys.argv[1]; drop=[k for k in sys.argv[2].split(',') if k]
